@@ -38,7 +38,7 @@ PROPS = {
     'C01': dict(
         Q=True,
         I=['c'],
-        K=dict(quick=['c01_step_n7_k0', 'c01_step_n7_k1', 'c01_step_n5_k2', 'c01_step_n7_k3', 'c01_walk_n3', 'c01_hist_k2'], thorough=['c01_step_n8_k0', 'c01_step_n8_k1', 'c01_step_n8_k2', 'c01_step_n8_k3', 'c01_walk_n6', 'c01_hist_k3', 'c01_step_n7_k2', 'c01_walk_n4']),
+        K=dict(quick=['c01_step_n7_k0', 'c01_step_n7_k1', 'c01_step_n7_k3', 'c01_hist_k2'], thorough=['c01_step_n8_k0', 'c01_step_n8_k1', 'c01_step_n8_k2', 'c01_step_n8_k3', 'c01_walk_n6', 'c01_hist_k3', 'c01_step_n7_k2', 'c01_walk_n4']),
         S=dict(quick=[], thorough=['s_reads_byparent', 's_writes_addversion', 's_reopen']),
         bounds='induction step from every REACH-shaped state with chain <= 7 (thorough 8), 2 clients, any request with any 128-bit ids; walk at chain <= 4 (6); histories of 2 (3) requests from the empty store',
     ),
@@ -57,7 +57,7 @@ PROPS = {
         bounds='2 overlapping requests (thorough: 3 for the new-client race), every pairing of the four operations, interleaving at transaction granularity (sound given exclusivity, which s_c03_exclusive decides for the SQLite glue), <= 3 retries',
     ),
     'C04': dict(
-        K=dict(quick=['c04_atomic_ack_n7_k0', 'c04_atomic_ack_n3_k2', 'c04_atomic_ack_n4_rd'], thorough=['c04_atomic_ack_n8_k0', 'c04_atomic_ack_n7_k2', 'c04_atomic_ack_n4_rd', 'c04_atomic_ack_n4_k2']),
+        K=dict(quick=['c04_atomic_ack_n7_k0', 'c04_atomic_ack_n4_rd'], thorough=['c04_atomic_ack_n8_k0', 'c04_atomic_ack_n7_k2', 'c04_atomic_ack_n4_rd', 'c04_atomic_ack_n4_k2']),
         S=dict(quick=['s_exclusive'], thorough=['s_exclusive', 's_writes_newclient', 's_writes_snapshot', 's_writes_addversion']),
         bounds='crash index over the first 14 storage calls of one operation from every REACH-shaped state; TRANSACTION-LEVEL crash model only (file-system crash points inside SQLite are not encodable)',
     ),
